@@ -51,10 +51,22 @@ type scenario struct {
 	// LongLived: all passes of a history run in one operator process (states rebuilt by path
 	// replay), and a deleted template may be re-created under the same name with another text
 	LongLived bool `json:"longLived"`
+	// Nested: both sources write below one shared top-level key of the template context
+	// (destinations .cfg.v and .cfg.w), the templates read .config.cfg.*
+	Nested bool `json:"nestedDestinations"`
+}
+
+// text is the template text of the alphabet entry name for this scenario.
+func (sc scenario) text(name string) string {
+	t := templates[name]
+	if sc.Nested {
+		t = strings.NewReplacer(".config.v", ".config.cfg.v", ".config.w", ".config.cfg.w", `get .config "w"`, `get .config.cfg "w"`, `hasKey .config "w"`, `hasKey .config.cfg "w"`, ".config.nope", ".config.cfg.nope").Replace(t)
+	}
+	return t
 }
 
 func (sc scenario) name() string {
-	return fmt.Sprintf("template cluster=%v templates=%v sources=%s edits=%d restarts=%d faults=%d conflicts=%d optionalFirst=%v longLived=%v", sc.Cluster, sc.Templates, sc.Sources, sc.Edits, sc.Restarts, sc.Faults, sc.Conflicts, sc.OptionalFirst, sc.LongLived)
+	return fmt.Sprintf("template cluster=%v templates=%v sources=%s edits=%d restarts=%d faults=%d conflicts=%d optionalFirst=%v longLived=%v nested=%v", sc.Cluster, sc.Templates, sc.Sources, sc.Edits, sc.Restarts, sc.Faults, sc.Conflicts, sc.OptionalFirst, sc.LongLived, sc.Nested)
 }
 
 func (sc scenario) tKey() kmodel.Key {
@@ -74,6 +86,9 @@ func (sc scenario) ctrl() string {
 func (sc scenario) sources() []corev1alpha1.ObjectTemplateSource {
 	s1 := corev1alpha1.ObjectTemplateSource{APIVersion: "verif.example/v1", Kind: "Gadget", Name: "s1", Items: []corev1alpha1.ObjectTemplateSourceItem{{Key: ".data.x", Destination: ".v"}}}
 	s2 := corev1alpha1.ObjectTemplateSource{APIVersion: "verif.example/v1", Kind: "Gizmo", Name: "s2", Optional: true, Items: []corev1alpha1.ObjectTemplateSourceItem{{Key: ".data.y", Destination: ".w"}}}
+	if sc.Nested {
+		s1.Items[0].Destination, s2.Items[0].Destination = ".cfg.v", ".cfg.w"
+	}
 	switch sc.Sources {
 	case "foreign-ns":
 		s1.Namespace = "other"
@@ -108,11 +123,11 @@ func (sc scenario) s1Key() kmodel.Key {
 var s2Key = world.KeyOf("Gizmo", world.NS, "s2")
 var outKey = world.KeyOf("Widget", world.NS, "out")
 
-func currentTemplate(c map[string]any) string {
+func (sc scenario) currentTemplate(c map[string]any) string {
 	v, _ := world.Nested(c, "spec", "template")
 	s, _ := v.(string)
-	for n, t := range templates {
-		if t == s {
+	for n := range templates {
+		if sc.text(n) == s {
 			return n
 		}
 	}
@@ -170,7 +185,7 @@ func check(sc scenario) func(before *world.World, ev world.Event, pass *world.Pa
 		if pass.Crashed || pass.Panic != "" {
 			return out
 		}
-		tmpl := currentTemplate(t.Content)
+		tmpl := sc.currentTemplate(t.Content)
 		s1 := before.S.Objs[sc.s1Key()]
 		s2 := before.S.Objs[s2Key]
 		invalidWhy := ""
@@ -302,9 +317,9 @@ func system(sc scenario) *world.System {
 				w.Budget["recreate"] = 1
 			}
 			if sc.Cluster {
-				w.MustCreate(&corev1alpha1.ClusterObjectTemplate{ObjectMeta: metav1.ObjectMeta{Name: "t"}, Spec: corev1alpha1.ObjectTemplateSpec{Template: templates[sc.Templates[0]], Sources: sc.sources()}})
+				w.MustCreate(&corev1alpha1.ClusterObjectTemplate{ObjectMeta: metav1.ObjectMeta{Name: "t"}, Spec: corev1alpha1.ObjectTemplateSpec{Template: sc.text(sc.Templates[0]), Sources: sc.sources()}})
 			} else {
-				w.MustCreate(&corev1alpha1.ObjectTemplate{ObjectMeta: metav1.ObjectMeta{Name: "t", Namespace: world.NS}, Spec: corev1alpha1.ObjectTemplateSpec{Template: templates[sc.Templates[0]], Sources: sc.sources()}})
+				w.MustCreate(&corev1alpha1.ObjectTemplate{ObjectMeta: metav1.ObjectMeta{Name: "t", Namespace: world.NS}, Spec: corev1alpha1.ObjectTemplateSpec{Template: sc.text(sc.Templates[0]), Sources: sc.sources()}})
 			}
 			w.Budget["edit"] = sc.Edits
 			w.Budget["restart"] = sc.Restarts
@@ -362,14 +377,14 @@ func system(sc scenario) *world.System {
 					}
 				}
 				if t != nil && !kmodel.Terminating(t.Content) {
-					cur := currentTemplate(t.Content)
+					cur := sc.currentTemplate(t.Content)
 					for _, n := range sc.Templates {
 						if n == cur {
 							continue
 						}
 						n := n
 						tp("user:set-template:"+n, func(w *world.World) {
-							_ = w.Edit(tk, func(c map[string]any) { c["spec"].(map[string]any)["template"] = templates[n] })
+							_ = w.Edit(tk, func(c map[string]any) { c["spec"].(map[string]any)["template"] = sc.text(n) })
 						})
 					}
 				}
@@ -386,7 +401,7 @@ func system(sc scenario) *world.System {
 					n := n
 					evs = append(evs, world.Event{Name: "user:re-create-template:" + n, Apply: func(w *world.World) *world.Pass {
 						w.Budget["recreate"]--
-						w.MustCreate(&corev1alpha1.ObjectTemplate{ObjectMeta: metav1.ObjectMeta{Name: "t", Namespace: world.NS}, Spec: corev1alpha1.ObjectTemplateSpec{Template: templates[n], Sources: sc.sources()}})
+						w.MustCreate(&corev1alpha1.ObjectTemplate{ObjectMeta: metav1.ObjectMeta{Name: "t", Namespace: world.NS}, Spec: corev1alpha1.ObjectTemplateSpec{Template: sc.text(n), Sources: sc.sources()}})
 						return nil
 					}})
 				}
@@ -436,6 +451,8 @@ func scenarios(quick bool) []scenario {
 		{Templates: []string{"needsw", "ok"}, Sources: "normal", Edits: 3},
 		{Cluster: true, Templates: []string{"okns"}, Sources: "normal", Edits: 2, OptionalFirst: true},
 		{Templates: []string{"ok", "noparse"}, Sources: "normal", Edits: 3, LongLived: true},
+		{Templates: []string{"ok", "needsw"}, Sources: "normal", Edits: 3, Nested: true},
+		{Cluster: true, Templates: []string{"okns"}, Sources: "normal", Edits: 2, Nested: true, OptionalFirst: true},
 	}
 	if !quick {
 		out = append(out,
@@ -449,7 +466,7 @@ func scenarios(quick bool) []scenario {
 
 func run(o checks.Opts) *report.Report {
 	rep := report.New("C18", "bfs")
-	rep.Rule = "explicit-state BFS: ObjectTemplate t (and a ClusterObjectTemplate variant) with a required source s1 (.data.x) and an optional source s2 (.data.y) listed in either order, template text from {renders both values, cannot render without the optional value, missing key, does not parse, foreign namespace, cluster-scoped kind}; events = create / edit / delete each source, switch template, reconcile, delete the template, operator restart (dynamic cache lost), garbage collector, (one system) all passes in one long-lived operator process with the template deleted and re-created under the same name with another text, every fault kind at every API call of a template pass and a foreign write landing before each of its writes (budgeted), with an edit budget; source values 1 / 2 / empty, the template has a conditional key and a list that shrinks; source variants: in namespace, in another namespace, cluster-scoped kind; monitor on every ObjectTemplate pass incl. the real EnqueueWatchingObjects handler over the cache's owner sets"
+	rep.Rule = "explicit-state BFS: ObjectTemplate t (and a ClusterObjectTemplate variant) with a required source s1 (.data.x) and an optional source s2 (.data.y) listed in either order (their values stored under separate top-level keys of the template context, or under one shared key), template text from {renders both values, cannot render without the optional value, missing key, does not parse, foreign namespace, cluster-scoped kind}; events = create / edit / delete each source, switch template, reconcile, delete the template, operator restart (dynamic cache lost), garbage collector, (one system) all passes in one long-lived operator process with the template deleted and re-created under the same name with another text, every fault kind at every API call of a template pass and a foreign write landing before each of its writes (budgeted), with an edit budget; source values 1 / 2 / empty, the template has a conditional key and a list that shrinks; source variants: in namespace, in another namespace, cluster-scoped kind; monitor on every ObjectTemplate pass incl. the real EnqueueWatchingObjects handler over the cache's owner sets"
 	scs := scenarios(o.Quick())
 	rep.Bounds["systems"] = len(scs)
 	for i, sc := range scs {
@@ -482,9 +499,9 @@ func init() {
 		},
 		Subs: []*checks.Sub{{Name: "bfs", Shards: func(t string) int {
 			if t == "thorough" {
-				return 11
+				return 14
 			}
-			return 9
+			return 12
 		}, Run: run, Replay: replay, Parallel: true},
 			{Name: "environment", Shards: func(t string) int {
 				if t == "thorough" {
